@@ -472,7 +472,7 @@ def run (lines : Array String) : IO Report := do
                       let v := parseInt ver
                       let cur : Bool := match AMap.get st.spec k with
                         | some e => e.ver == v || st.inexact.contains k
-                        | none => decide (v < 0)          -- a tombstone of a key the (rebuilt) tree no longer knows
+                        | none => decide (v < 0) && decide (gs > 0)   -- a tombstone of a key the (rebuilt) tree no longer knows: kept only by a pass that does not start at file 0 (C18_range_holds_only_current)
                       if !cur then diff rep ln "oracle" s!"case={cid} key=C18/superseded-survives file {c} of the collected range still holds {kh}:{ver}, not the current record of its key"
                       if v > 0 && seen.contains kh then diff rep ln "oracle" s!"case={cid} key=C18/duplicate-record key {kh} appears twice in the collected range"
                       seen := kh :: seen
